@@ -5,7 +5,7 @@ View of a continuum c:   Ann(c) : annotator -> Bool        Us(c) : annotator -> 
 Enumerations (ghost):     Nkeys(c), Kseq(c)[k]  annotators ascending;   Cnt(c)[a], Useq(c)[a][j]  units ascending
 Representation invariant RI(c): units only under known annotators, longer than the segment precision, labels within the
 category set, within the bounds."""
-from pyvc.contract import Macro
+from pyvc.contract import Macro, Lemma
 
 RI = Macro("RI", ["c"],
            "forall([(a, Real), (u, Unit)], implies(Us(c)[a][u], Ann(c)[a] and u.e - u.s > 1e-6 and "
@@ -16,3 +16,15 @@ SAME_VIEW = Macro("same_view", ["c"],
 EMPTY_U = Macro("no_units", ["S"], "forall([(u, Unit)], not S[u])")
 NUM_UNITS = Macro("NumUnits", ["c"], "psum(lam(k, Cnt(c)[Kseq(c)[k]]), Nkeys(c))")
 VIEW_MACROS = [RI, SAME_VIEW, EMPTY_U, NUM_UNITS]
+
+# lemmas about the ghost prefix sum (proved by induction wherever they are listed, exported to callers)
+PSUM_LEMMAS = [
+    Lemma("psum_ext_int", "psum(f, k) == psum(g, k)", binders=[("f", "AInt"), ("g", "AInt"), ("k", "Int")],
+          hyps=["0 <= k", "forall(i, 0, k, f[i] == g[i])"], method=("induction", "k", "0")),
+    Lemma("psum_ext_real", "rpsum(f, k) == rpsum(g, k)", binders=[("f", "AReal"), ("g", "AReal"), ("k", "Int")],
+          hyps=["0 <= k", "forall(i, 0, k, f[i] == g[i])"], method=("induction", "k", "0")),
+    Lemma("psum_nonneg", "psum(f, k) >= 0", binders=[("f", "AInt"), ("k", "Int")],
+          hyps=["0 <= k", "forall(i, 0, k, f[i] >= 0)"], method=("induction", "k", "0")),
+    Lemma("psum_pos", "psum(f, k) >= 1", binders=[("f", "AInt"), ("i0", "Int"), ("k", "Int")],
+          hyps=["0 <= i0", "i0 < k", "forall(i, 0, k, f[i] >= 0)", "f[i0] >= 1"], method=("induction", "k", "i0 + 1")),
+]
